@@ -412,8 +412,9 @@ func init() {
 
 func ExecReader(data any, selector string) (any, error) {
 	mut.Lock()
-	if _, ok := cache[selector]; !ok {
-		allSelectors := make([][]any, 0)
+	allSelectors, ok := cache[selector]
+	if !ok {
+		allSelectors = make([][]any, 0)
 		selectors := strings.Split(selector, "::")
 		for _, item := range selectors {
 			selectors, err := ParseSelector(item)
@@ -427,7 +428,7 @@ func ExecReader(data any, selector string) (any, error) {
 	}
 	mut.Unlock()
 	result := data
-	for _, item := range cache[selector] {
+	for _, item := range allSelectors {
 		rs, err := ReaderExecutor(result, item)
 		if err != nil {
 			return nil, err
